@@ -260,6 +260,7 @@ func (u UnitBytes) MarshalJSON() ([]byte, error) {
 			mapping[key] = convertedEntry
 		}
 		return mapping, nil""", "the caller's pre-parsed Config is converted in place and then rewritten by the pipeline (INPUTS-cfg)"),
+ ("C14", "profiles-not-copied", "K", "types/project.go", """	newProject.Profiles = append(profiles[:0:0], profiles...)""", """	newProject.Profiles = profiles""", "the result keeps the caller's slice (IMM-I2 on arguments)"),
  ("C13", "stop-one-early", "K", "graph/traversal.go", """				if expect == 0 {
 					return nil
 				}
